@@ -1,6 +1,6 @@
 SPECIFICATION Spec
 CONSTANTS
-  BPs = {25, 30, 45, 50, 65, 70}
+  BPs = {30, 45, 50, 70}
   Betas <- BetasT
   Pcts <- PctsT
 INVARIANT BoundsOrdered
